@@ -83,6 +83,14 @@ Theorem C02_suffix_isolated : forall r c s m a,
 Proof. exact suffix_isolated. Qed.
 Print Assumptions C02_suffix_isolated.
 
+(* Sink kwargs: the sink receives m.groupdict(), i.e. EVERY named group of its prefix pattern —
+   groups in optional / alternation parts that did not take part arrive as None (patterns of the
+   modelled regular-expression language). *)
+Theorem C02_sink_kwargs_complete : forall p path g,
+  spat_match p path = Some g -> map fst g = rx_names p.
+Proof. exact sink_kwargs_complete. Qed.
+Print Assumptions C02_sink_kwargs_complete.
+
 Theorem C02_meta_method_400 : forall cinst cmulti a method path,
   mem method META_METHODS = true -> get_responder cinst cmulti a method path = O400.
 Proof. exact meta_method_400. Qed.
@@ -94,6 +102,17 @@ Theorem C02_oracle_sound : forall cinst cmulti a method path,
 Proof. exact oracle_sound. Qed.
 Print Assumptions C02_oracle_sound.
 
+(* A pattern with an optional named group: /api(?:/v(?P<v>\d+))?/(?P<s>[a-z]+) on /api/users *)
+Example C02_nonparticipating_group :
+  let api := [47; 97; 112; 105]%N in
+  let p := RSeq (RLit api)
+                (RSeq (ROpt (RSeq (RLit [47; 118]%N) (RNamed [118]%N (RCls CDigit QPlus))))
+                      (RSeq (RLit [47]%N) (RNamed [115]%N (RCls CLower QPlus)))) in
+  spat_match p [47; 97; 112; 105; 47; 117; 115]%N = Some [([118]%N, None); ([115]%N, Some [117; 115]%N)] /\
+  spat_match p [47; 97; 112; 105; 47; 118; 50; 47; 117]%N
+  = Some [([118]%N, Some [50]%N); ([115]%N, Some [117]%N)].
+Proof. vm_compute. split; reflexivity. Qed.
+
 (* Non-vacuity: two sinks and a static route on one prefix, a route below it; LIFO, order
    flag, masking, 405 and automatic OPTIONS. *)
 Example C02_premises_satisfiable :
@@ -101,7 +120,7 @@ Example C02_premises_satisfiable :
   let sx := [47; 115; 47; 120]%N in                         (* "/s/x" *)
   let get := [71; 69; 84]%N in let post := [80; 79; 83; 84]%N in
   let res : resource := [([111; 110; 95; 103; 101; 116]%N, true)] in   (* on_get *)
-  let ops := [AddSink 0 (SPrefix s); AddSink 1 (SPrefix s);
+  let ops := [AddSink 0 (RLit s); AddSink 1 (RLit s);
               AddStatic 2 {| sr_prefix := s; sr_fallback := false |};
               AddRoute sx 0 res None] in
   get_responder std_cinst std_multi (build std_cinst std_multi true ops) get s = OSink 1 [] /\
